@@ -23,9 +23,9 @@ import (
 // fctx is a context that counts how often the interpreter polls Done().
 type fctx interface {
 	context.Context
-	N() int      // polls so far
-	Hit() bool   // cancellation has happened
-	HitAt() int  // value of N() when it happened
+	N() int     // polls so far
+	Hit() bool  // cancellation has happened
+	HitAt() int // value of N() when it happened
 	Kind() string
 }
 
@@ -239,6 +239,9 @@ func safeNext(it gojq.Iter) (v any, ok bool, pan string) {
 			st := string(debug.Stack())
 			if i := strings.Index(st, "panic("); i >= 0 {
 				st = st[i:]
+			}
+			if i := strings.Index(st, "\nverif/checks/c07.safeNext"); i >= 0 {
+				st = st[:i] // keep the frames inside gojq only
 			}
 			if len(st) > 900 {
 				st = st[:900]
